@@ -290,6 +290,17 @@ def run_case(case: dict, inst: dict, seed_seq) -> dict:
         return obs
     obs["outcome"] = "returns"
     obs["unmutated"] = digest(base) == before
+    if isinstance(res, np.ndarray) and res.dtype.kind == "f" and res.size and res.flags.writeable and not np.shares_memory(res, base):
+        # the caller converts the returned table to other units in place and evaluates the same pressures again: a result
+        # belongs to the caller, the later answer is the one that is judged
+        res *= 1e-3
+        try:
+            res = arr_call(view)
+        except Exception as ex:  # noqa: BLE001
+            obs["outcome"] = "raises"
+            obs["exc"] = f"second evaluation: {type(ex).__name__}: {ex}"
+            return obs
+        obs["unmutated"] = digest(base) == before
     obs["is_array"] = isinstance(res, np.ndarray)
     res = np.asarray(res)
     obs["shape"] = list(res.shape)
